@@ -56,7 +56,7 @@ MetaValid(m) == Metas[m].nameLen > 0 /\ Metas[m].symLen > 0 /\ Metas[m].decimals
 TokenOf(st, id) == IF st.reg[id] = "native" THEN id ELSE st.regTok[id]
 MetaOfToken(st, id) ==
     IF st.reg[id] = "native" THEN st.tokMeta[id]
-    ELSE IF st.regTok[id] = "fk" THEN st.fkMeta ELSE "sacMeta"
+    ELSE IF st.regTok[id] = "fk" THEN st.fkMeta ELSE IF st.regTok[id] = "itk" THEN "itkMeta" ELSE "sacMeta"
 
 Blank(owner) ==
     [trusted |-> [c \in Chains |-> FALSE],
